@@ -394,6 +394,9 @@ func VH_printShared(which int) {
 		env.Define("p", map[string]interface{}{"a": obj, "b": obj, "c": map[string]interface{}{"d": obj}})
 		node = ident("p", 2)
 		part = "k0:5"
+	case 4: // {a: {x: 1, y: 2, z: 3}, b: 4, c: {u: 5}}: nested objects with several properties, with siblings after them
+		env.Define("p", map[string]interface{}{"a": map[string]interface{}{"x": 1.0, "y": 2.0, "z": 3.0}, "b": 4.0, "c": map[string]interface{}{"u": 5.0}})
+		node = ident("p", 2)
 	default: // [[o], o, [r, o]]
 		node = &ast.ArrayLiteral{Elements: []ast.Expr{&ast.ArrayLiteral{Elements: []ast.Expr{ident("o", 2)}, Line: 2}, ident("o", 2), &ast.ArrayLiteral{Elements: []ast.Expr{ident("r", 2), ident("o", 2)}, Line: 2}}, Line: 2}
 		part = "k0:5"
@@ -403,7 +406,9 @@ func VH_printShared(which int) {
 	verifAssert("shared-print-one-line", hvCountStdout() == 1 && hvCountStderr() == 0)
 	if hvCountStdout() == 1 {
 		text := verifEventText(0)
-		if which == 3 {
+		if which == 4 {
+			verifAssert("printed-object-shows-every-property", verifTextContainsInOrder(text, "a:", "x:1", "y:2", "z:3", "b:4", "c:", "u:5"))
+		} else if which == 3 {
 			verifAssert("printed-value-shows-a-shared-part-every-time", verifTextContainsInOrder(text, "a:", part, "b:", part, "d:", part))
 		} else if which == 2 {
 			verifAssert("printed-value-shows-a-shared-part-every-time", verifTextContainsInOrder(text, part, part, "1 2", part))
